@@ -284,6 +284,9 @@ def add_extras(files: T.Dict[str, str], setup_args: T.Sequence[str], seed: int,
         files['xcfg/in2.h.in'] = '#cmakedefine XC_B @XC_B@\n#cmakedefine XC_NOTSET\n#cmakedefine01 XC_BOOL\n#define V "${K2}"\n'
         files['xcfg/in3.txt.in'] = 'dict @dictkey@ @A@ @zkey@\n'
         files['xcfg/copy.txt'] = 'copied verbatim @NOT_A_VAR@\n'
+        # templates with CRLF / mixed line endings and no final newline (an unchanged output must stay untouched whatever its line endings)
+        files['xcfg/dos.h.in'] = '/* dos */\r\n#mesondefine XC_B\r\n#define S @XC_STR@\r\n#define K @K2@\r\n'
+        files['xcfg/mixed.txt.in'] = 'unix line @K1@\ndos line @K2@\r\nlast line without newline @K3@'
         cfgs = [
             "configure_file(output: 'xcfg_out.h', configuration: x_cd)",
             "configure_file(output: 'xcfg_out.asm', configuration: x_cd, output_format: 'nasm')",
@@ -293,6 +296,8 @@ def add_extras(files: T.Dict[str, str], setup_args: T.Sequence[str], seed: int,
             "configure_file(input: 'xcfg/in2.h.in', output: 'xcfg_in2.h', configuration: x_cd, format: 'cmake')",
             f"configure_file(input: 'xcfg/in3.txt.in', output: 'xcfg_in3.txt', configuration: {dct({k: q('v' + k) for k in _perm(rng, ['dictkey', 'A', 'zkey'])})}, install: true, install_dir: 'share/x')",
             "configure_file(input: 'xcfg/copy.txt', output: 'xcfg_copy.txt', copy: true)",
+            "configure_file(input: 'xcfg/dos.h.in', output: 'xcfg_dos.h', configuration: x_cd)",
+            "configure_file(input: 'xcfg/mixed.txt.in', output: 'xcfg_mixed.txt', configuration: x_cd)",
             "configure_file(input: 'xcfg/copy.txt', output: '@PLAINNAME@.copy2', copy: true, install: true, install_dir: 'share/x2', install_tag: 'doc')",
             "configure_file(output: 'xcfg_dict.h', configuration: {'ZD': 1, 'AD': '\"q\"', 'MD': false})",
         ]
